@@ -5,7 +5,7 @@
 #    existing suite (C++/MPI tests; python tests need /repo/_build's venv) still passes with the patch
 #  - bin/check Cxx --repo /tmp/seedrepo must print VIOLATION
 set -u
-P=$1; OUT=${2:-/tmp/seedout-$P}; NAME=${3:-$P}; V=$(cd "$(dirname "$0")/.." && pwd); S=/tmp/seedrepo
+P=$1; OUT=${2:-/tmp/seedout-$P}; NAME=${3:-$P}; V=$(cd "$(dirname "$0")/.." && pwd); S=${SEEDREPO:-/tmp/seedrepo}
 D=$V/seeded/$NAME; mkdir -p $D; find $OUT -maxdepth 1 -type f -size -400k -exec cp {} $D/ \; 2>/dev/null
 LOG=$D/verify.log; : > $LOG
 export OMPI_ALLOW_RUN_AS_ROOT=1 OMPI_ALLOW_RUN_AS_ROOT_CONFIRM=1
